@@ -576,6 +576,11 @@ def run_custom(run, S, fn, name, spec, kw, depth=0):
                     atom = A.CTX.atom(an)
                     if atom not in A.CTX.hyps and atom not in e_.atoms():
                         A.CTX.hyps[atom] = (1, e_)
+                mp_ = {}
+                _linear_path_substitutions(S, guards, cv0, env, mp_)
+                for atom, e_ in mp_.items():
+                    if atom not in A.CTX.hyps:
+                        A.CTX.hyps[atom] = (1, e_)
                 view = _View(S, sp.name, dict(sp.root, out=leaf), env, guards)
                 run.key_suffix = old_suffix + ':path%d' % li
                 with path_hyps(S, guards):
@@ -852,6 +857,22 @@ def _subst_struct(x, mapping):
     return x
 
 
+def _linear_path_substitutions(S, guards, cv0, env, mapping):
+    """path equalities that are not literally `input == term` but fix one input atom linearly (`k * x == 0`, `x + 1 == y`):
+    the atom is substituted as well (reaches the arguments of function symbols, which rewriting does not)"""
+    K = A.CTX.kind
+    for a, b in _path_eq_pairs(S, guards):
+        if S.terms[a][0] == 'v' or S.terms[b][0] == 'v':
+            continue
+        try:
+            h = _hyp_from_difference(cv0.el(a) - cv0.el(b))
+        except Exception:
+            h = None
+        if h is not None and h[1] == 1 and K[h[0]][0] == 'base' and h[0] not in mapping and h[0] not in h[2].atoms():
+            mapping[h[0]] = h[2]
+            env[A.CTX.names[h[0]]] = h[2]
+
+
 def check_value(run, S, name, expected, rule='K3 ring conformance', post=None, allow_panics=False, field_div=None):
     """Every Return leaf must conform.  Normally there is exactly one; when the code special-cases inputs by exact
     equality tests, each leaf is compared under the equalities of its own path, so a correct shortcut stays silent
@@ -889,6 +910,8 @@ def check_value(run, S, name, expected, rule='K3 ring conformance', post=None, a
             e_ = cv0.el(tid)
             env[an] = e_
             mapping[A.CTX.atom(an)] = e_
+        if len(rets) > 1:
+            _linear_path_substitutions(S, guards, cv0, env, mapping)
         cv = Conv(S, env=env, field_div=field_div) if env else cv0
         suffix = '' if len(rets) == 1 else ':path%d' % li
         with path_hyps(S, guards if len(rets) > 1 else (), field_div=field_div):
